@@ -369,12 +369,12 @@ pub fn run(ctx: &Ctx) -> PropResult {
             else {
                 let mut acc = Acc::default();
                 let mut rng = Rng::fork(ctx.seed, 0xC09_9999);
-                for _ in 0..ctx.scaled(2000) {
-                    direct::<1>(&mut acc, &mut rng, 60);
-                    direct::<2>(&mut acc, &mut rng, 60);
-                    direct::<3>(&mut acc, &mut rng, 60);
-                    direct::<4>(&mut acc, &mut rng, 60);
-                    direct::<10>(&mut acc, &mut rng, 120);
+                for _ in 0..ctx.scaled(300) {
+                    direct::<1>(&mut acc, &mut rng, 900);
+                    direct::<2>(&mut acc, &mut rng, 900);
+                    direct::<3>(&mut acc, &mut rng, 900);
+                    direct::<4>(&mut acc, &mut rng, 900);
+                    direct::<10>(&mut acc, &mut rng, 900);
                 }
                 acc
             }
